@@ -193,7 +193,22 @@ pub fn via_bytes(f: &FactSet, version: u8) -> (Vec<u8>, Built) {
         f,
         &EncodeOpts {
             version,
-            emit_empty_parent_records: true,
+            emit_empty_parent_records: true, parent_record_order: None
+        },
+    );
+    let b = from_bytes(&bytes);
+    (bytes, b)
+}
+
+/// Like `via_bytes`, with a randomly chosen valid layout variant: parent records in an order of their
+/// own, and parent records for all terms or only for terms that have parents
+pub fn via_bytes_variant(f: &FactSet, version: u8, rng: &mut Rng) -> (Vec<u8>, Built) {
+    let (bytes, _) = encode(
+        f,
+        &EncodeOpts {
+            version,
+            emit_empty_parent_records: rng.chance(2, 3),
+            parent_record_order: if rng.chance(1, 2) { Some(rng.next_u64()) } else { None },
         },
     );
     let b = from_bytes(&bytes);
